@@ -62,7 +62,7 @@ impl<Ix: Default + Send> Competition<Ix> {
     ) -> (HashMap<Ix, f32, B>, usize)
     where
         K: Eq + std::hash::Hash + Send,
-        Ix: Eq + std::hash::Hash,
+        Ix: Eq + std::hash::Hash + Ord,
         B: BuildHasher + Default + Send,
     {
         let estimator = Self::fit_kde(&scores);
@@ -84,7 +84,14 @@ impl<Ix: Default + Send> Competition<Ix> {
             })
             .collect::<Vec<Row<Ix>>>();
 
-        scores.par_sort_by(|a, b| b.score.total_cmp(&a.score));
+        // equal scores are ordered canonically (decoys first, then by entity), not in
+        // hash-map iteration order, so the result does not depend on how PSMs were supplied
+        scores.par_sort_by(|a, b| {
+            b.score
+                .total_cmp(&a.score)
+                .then_with(|| b.decoy.cmp(&a.decoy))
+                .then_with(|| a.ix.cmp(&b.ix))
+        });
 
         let mut decoy = 1.0;
         let mut target = 0.0;
@@ -207,7 +214,12 @@ pub fn picked_precursor(
         })
         .collect::<Vec<_>>();
 
-    scores.par_sort_by(|a, b| b.score.total_cmp(&a.score));
+    scores.par_sort_by(|a, b| {
+        b.score
+            .total_cmp(&a.score)
+            .then_with(|| b.decoy.cmp(&a.decoy))
+            .then_with(|| a.ix.cmp(&b.ix))
+    });
 
     let mut decoy = 1.0;
     let mut target = 0.0;
